@@ -43,7 +43,16 @@ func vhC33PipeStream() {
 		vAssert("write-accepts-all", err == nil && n == len(p))
 		want = append(want, p...)
 		if vBool("readNow") {
-			readSome()
+			if len(got) < len(want) && vBool("oneReadOnly") {
+				// a single Read, possibly leaving part of a chunk unread when the
+				// next Write comes
+				buf := make([]byte, 1+vChoose("bufsize", 2)*7)
+				n, err := r.Read(buf)
+				vAssert("read-no-error-while-data-pending", err == nil && n > 0)
+				got = append(got, buf[:n]...)
+			} else {
+				readSome()
+			}
 		}
 	}
 	w.Close()
